@@ -92,7 +92,7 @@ def run_random_items(spec, res):
 
 def prefix_hook_factory(prog, res):
     def hook(i, ds, m):
-        if m is None or i == len(prog['ops']) or not m.finite:
+        if m is None or i == len(prog['ops']) or not m.finite or m.poisoned:
             return
         sub = {'src': prog['src'], 'ops': prog['ops'][:i]}
         lo = op_name(sub['ops'][-1]) if sub['ops'] else 'source'
